@@ -214,6 +214,7 @@ func runChecks(repo, prop, tier, evdir, kfPath, explain string) int {
 					}
 				}()
 				ps.Run(c)
+				runCanaries(c, ps)
 			}()
 		}
 		if finish(c, ps, tier, seed, evdir, kfPath, start) != 0 {
